@@ -203,6 +203,15 @@ Section Primitives.
       (forall k, decode m = DOk k -> k <> KInit -> r = None).
     Proof. exact (gate_closed_before_init decode init_ok handler_ok). Qed.
 
+    (** every reply the gate enqueues (the pong to a ping) fits a transport frame: it is sent only
+        when [ponglen < PING_PONGLEN_LIMIT] (constant taken from the source), and is
+        [ponglen + 4 <= LN_MAX_MSG_LEN] bytes long *)
+    Theorem C15_replies_fit_a_frame : forall g m,
+      (forall pl, decode m = DOk (KPing pl) -> 0 <= pl) ->
+      Forall (fun e => match e with EvReply r => blen r <= LN_MAX_MSG_LEN | _ => True end)
+             (fst (gate_msg decode init_ok handler_ok g m)).
+    Proof. exact (replies_fit_frame decode init_ok handler_ok). Qed.
+
     (** inbound connection, any sequence of [read_event] calls with any bytes: the reader ends
         alive or disconnected (no assertion failure, no wrong-step panic, loop terminates), and any
         handler delivery is preceded by their accepted Init, itself preceded by the end of the
@@ -242,12 +251,35 @@ Theorem C15_backpressure_fifo : forall ops st sent,
   wrun w_init ops = (st, sent) -> sent ++ w_pending st = concat (enqueued ops).
 Proof. exact writer_fifo. Qed.
 
-Theorem C15_writer_drains : forall queue off oracle st sent o,
+Theorem C15_writer_drains : forall queue off pause blocked oracle st sent o calls,
   Forall2 (fun b x => (length b <= x)%nat) queue (firstn (length queue) oracle) ->
   (match queue with [] => off = O | b :: _ => (off <= length b)%nat end) ->
-  write_loop queue off false true oracle = (st, sent, o) ->
+  write_loop queue off false pause true blocked oracle = (st, sent, o, calls) ->
   w_queue st = [] /\ w_off st = O.
 Proof. exact write_loop_drains. Qed.
+
+(** ** Read pause / resume across [send_data(data, continue_read)] *)
+
+(** the socket driver takes the read-pause flag from [continue_read] on every call, also with no
+    data: [continue_read = true] unpauses and wakes a paused reader *)
+Theorem C15_driver_resumes_on_any_write : forall d data,
+  d_read_paused (drv_send_data d data true) = false /\
+  (d_read_paused d = true -> d_wakeups (drv_send_data d data true) = Datatypes.S (d_wakeups d)).
+Proof. exact drv_resume. Qed.
+
+(** reads were paused and the reason is gone (fewer than OUTBOUND_BUFFER_LIMIT_READ_PAUSE buffers
+    queued, gossip not backlogged): the next [process_events] (forced or not, any socket answers,
+    even with nothing queued) or [write_buffer_space_avail] makes at least one [send_data] call,
+    all with [continue_read = true], leaves [sent_pause_read = false], and a driver honouring the
+    contract ends unpaused and woken *)
+Theorem C15_read_resume : forall st op d st' sent calls,
+  w_pause st = true -> d_read_paused d = true ->
+  (exists force oracle, op = WProcess force false oracle) \/ (exists oracle, op = WSpaceAvail false oracle) ->
+  should_read (w_queue st) false = true ->
+  wstep_full st op = (st', sent, calls) ->
+  calls <> [] /\ Forall (fun c => c = true) calls /\ w_pause st' = false /\
+  d_read_paused (drv_calls d calls) = false /\ (d_wakeups d < d_wakeups (drv_calls d calls))%nat.
+Proof. exact read_resume. Qed.
 
 (** ** The executable ChaCha20-Poly1305 instance satisfies the AEAD laws, so delivery holds for it
     with no cryptographic hypothesis (HKDF, SHA-256 and ECDH stay arbitrary functions) *)
